@@ -301,6 +301,21 @@ impl<Sink: TokenSink> XmlTokenizer<Sink> {
     // NB: this doesn't do input stream preprocessing or set the current input
     // character.
     fn eat(&self, input: &BufferQueue, pat: &str) -> Option<bool> {
+        // A CR was just folded into LF: drop the LF of a CRLF pair before looking ahead.
+        if self.ignore_lf.get() {
+            match self.peek(input) {
+                Some(c) => {
+                    self.ignore_lf.set(false);
+                    if c == '\n' {
+                        self.discard_raw_char(input);
+                    }
+                },
+                // The LF may still arrive with the next chunk.
+                None if !self.at_eof.get() => return None,
+                None => self.ignore_lf.set(false),
+            }
+        }
+
         input.push_front(replace(&mut *self.temp_buf.borrow_mut(), StrTendril::new()));
         match input.eat(pat, u8::eq_ignore_ascii_case) {
             None if self.at_eof.get() => Some(false),
